@@ -25,6 +25,10 @@ pub struct Report {
     pub property: String,
     pub evaluations: u64,
     distinct: HashSet<u64>,
+    /// finer-grained distinct observations (e.g. interleaving windows inside a history); reported separately so that
+    /// distinct_nontrivial stays a count of distinct evaluated cases
+    fine: HashSet<u64>,
+    pub fine_name: String,
     pub trivial: u64,
     pub samples: Vec<Json>,
     sample_cap: usize,
@@ -47,6 +51,8 @@ impl Report {
             property: property.to_string(),
             evaluations: 0,
             distinct: HashSet::new(),
+            fine: HashSet::new(),
+            fine_name: String::new(),
             trivial: 0,
             samples: Vec::new(),
             sample_cap: 6,
@@ -72,6 +78,25 @@ impl Report {
     /// Record the signature of a non-trivial case. Returns true if it was new.
     pub fn distinct(&mut self, sig: &str) -> bool {
         self.distinct.insert(hash_str(sig))
+    }
+
+    /// Record a fine-grained observation (window / trigram) under `fine_name`.
+    pub fn fine(&mut self, name: &str, sig: &str) {
+        if self.fine_name.is_empty() {
+            self.fine_name = name.to_string();
+        }
+        self.fine.insert(hash_str(sig));
+    }
+
+    /// One signature for a whole case made of many windows: the hash of the sorted set of window signatures.
+    pub fn distinct_set(&mut self, prefix: &str, windows: &mut Vec<String>) -> bool {
+        windows.sort();
+        windows.dedup();
+        let mut h = hash_str(prefix);
+        for w in windows.iter() {
+            h = crate::rng::mix(&[h, hash_str(w)]);
+        }
+        self.distinct.insert(h)
     }
 
     pub fn distinct_hash(&mut self, h: u64) -> bool {
@@ -144,6 +169,12 @@ impl Report {
             o.set("distinct", Json::Arr(v.into_iter().map(|h| Json::Str(format!("{:x}", h))).collect()));
         } else {
             o.set("distinct", Json::Null);
+        }
+        if !self.fine.is_empty() && self.fine.len() <= MAX_DISTINCT_LISTED {
+            let mut v: Vec<u64> = self.fine.iter().copied().collect();
+            v.sort_unstable();
+            o.set("fine", Json::Arr(v.into_iter().map(|h| Json::Str(format!("{:x}", h))).collect()));
+            o.set("fine_name", self.fine_name.as_str());
         }
         o.set("trivial", self.trivial);
         o.set("samples", Json::Arr(self.samples.clone()));
